@@ -43,6 +43,13 @@ impl PoeticNumberLiteralTemplate {
                 .collect(),
         )
     }
+    // None when the value has no poetic spelling (negative, NaN or infinite)
+    fn try_from_value(val: NumericConstant) -> Option<Self> {
+        val.to_string()
+            .chars()
+            .all(|c| c == '.' || c.is_ascii_digit())
+            .then(|| Self::from_value(val))
+    }
     fn mod10(len: usize) -> usize {
         match len {
             0 => 10,
@@ -77,16 +84,18 @@ impl PoeticNumberLiteralTemplate {
     }
 }
 
-fn numeric_suggestion_payload(var: &impl Render, val: NumericConstant) -> String {
-    format!(
-        "{} is {}",
-        var.render(),
-        PoeticNumberLiteralTemplate::from_value(val).as_text()
-    )
+fn numeric_suggestion_payload(var: &impl Render, val: NumericConstant) -> Option<String> {
+    PoeticNumberLiteralTemplate::try_from_value(val)
+        .map(|template| format!("{} is {}", var.render(), template.as_text()))
 }
 
-fn string_suggestion_payload(var: &impl Render, val: &StringConstant) -> String {
-    format!("{} says {}", var.render(), val.value)
+// None when the text cannot be written after `says` (a poetic string ends at the line break)
+fn string_suggestion_payload(var: &impl Render, val: &StringConstant) -> Option<String> {
+    if val.value.contains(|c| c == '\n' || c == '\r') {
+        None
+    } else {
+        Some(format!("{} says {}", var.render(), val.value))
+    }
 }
 
 fn suggestion_text(payload: &str) -> String {
@@ -95,19 +104,19 @@ fn suggestion_text(payload: &str) -> String {
 
 fn build_diag<Constant: Display>(
     var: &impl Render,
-    suggestion: &str,
+    suggestion: Option<String>,
     val: Constant,
     line: u32,
 ) -> DiagsBuilder {
     DiagsBuilder::One(Diag {
         issue: issue_text(var, &val),
-        suggestions: vec![suggestion_text(suggestion)],
+        suggestions: suggestion.iter().map(|s| suggestion_text(s)).collect(),
         line,
     })
 }
 
 fn build_numeric_diag(var: &impl Render, val: NumericConstant, line: u32) -> DiagsBuilder {
-    build_diag(var, &numeric_suggestion_payload(var, val), val, line)
+    build_diag(var, numeric_suggestion_payload(var, val), val, line)
 }
 
 fn maybe_build_string_diag(
@@ -115,16 +124,13 @@ fn maybe_build_string_diag(
     val: Option<StringConstant>,
     line: u32,
 ) -> DiagsBuilder {
-    val.map(|val| build_diag(var, &string_suggestion_payload(var, &val), val, line))
+    val.map(|val| build_diag(var, string_suggestion_payload(var, &val), val, line))
         .unwrap_or_default()
 }
 
-fn array_push_suggestion_payload(var: &impl Render, val: NumericConstant) -> String {
-    format!(
-        "Rock {} like {}",
-        var.render(),
-        PoeticNumberLiteralTemplate::from_value(val).as_text()
-    )
+fn array_push_suggestion_payload(var: &impl Render, val: NumericConstant) -> Option<String> {
+    PoeticNumberLiteralTemplate::try_from_value(val)
+        .map(|template| format!("Rock {} like {}", var.render(), template.as_text()))
 }
 
 fn maybe_build_numeric_array_push_diag(
@@ -132,7 +138,7 @@ fn maybe_build_numeric_array_push_diag(
     val: Option<NumericConstant>,
     line: u32,
 ) -> DiagsBuilder {
-    val.map(|val| build_diag(var, &array_push_suggestion_payload(var, val), val, line))
+    val.map(|val| build_diag(var, array_push_suggestion_payload(var, val), val, line))
         .unwrap_or_default()
 }
 
